@@ -290,6 +290,24 @@ class Tree:
                             continue
                         raise
                     env.log("get-", tag, lab(r), env.env_events - ev0)
+                elif k == "nested-tree":
+                    # the component starts a sub-tree of its own from inside its method; st[1] says whether that sub-tree fails
+                    class InnerLeaf(ac.Component):
+                        async def prepare(self2) -> None:
+                            env.log("inner-prepare", path)
+                            if st[1]:
+                                exc = CompFail(f"inner of {path}")
+                                self.raised.append(exc)
+                                env.log("failing", path, phase)
+                                raise exc
+
+                    class InnerRoot(ac.Component):
+                        def __init__(self2) -> None:
+                            self2.add_component("leaf", InnerLeaf)
+
+                    self.inner_classes = getattr(self, "inner_classes", {})
+                    self.inner_classes[path] = (InnerRoot, InnerLeaf)
+                    await ac.start_component(InnerRoot, {}, timeout=None)
                 elif k == "subblock":
                     # the component enters and leaves a context of its own; afterwards it is again inside its ComponentContext
                     async with ac.Context():
